@@ -1,5 +1,8 @@
 use crate::CacheEntry;
+#[cfg(not(feature = "verif"))]
 use parking_lot::RwLockWriteGuard;
+#[cfg(feature = "verif")]
+use crate::verif_sync::RwLockWriteGuard;
 use std::collections::{HashMap, VecDeque};
 
 /// Moves a key to the end of the order queue (marks as most recently used).
